@@ -453,7 +453,7 @@ def main(run, replay=None):
     import translate.formulas
     rng = run.rng
     quick = run.tier == "quick"
-    n = 170 if quick else 2000
+    n = 170 if quick else 3000
     import time as _time
     T = {"t0": _time.time()}
     tr = translate.formulas.translate(run)
